@@ -205,22 +205,52 @@ def channels(f: Func, index: Optional[RepoIndex] = None,
     rets = [e for e in w.events if e.kind == 'return' and e.value is not None]
     if len(rets) != 1:
         raise AnalysisError(f'{f.name}: expected one return')
-    arr = None
     # expand array-valued locals (but not the scalar maxima, which the leaves resolve)
     scalars = {n_ for n_, ds in w.defs.items()
                if len(ds) == 1 and ds[0][0] == 'value' and not (
                    isinstance(ds[0][1], ast.Call) and src(ds[0][1].func) in
                    ('np.array', 'numpy.array', 'Space.make_categorical_space',
-                    'Space.make_discrete_space', 'Space.make_continuous_space'))}
-    for n in ast.walk(w.expand(rets[0].value, stop=scalars)):
-        if isinstance(n, ast.Call) and src(n.func) in ('np.array', 'numpy.array') and n.args \
-                and isinstance(n.args[0], (ast.List, ast.Tuple)):
-            arr = n.args[0]
-            break
-    if arr is None:
-        raise AnalysisError(f'{f.name}: no np.array([...]) in the return')
+                    'Space.make_discrete_space', 'Space.make_continuous_space'))
+               and max_aff(ds[0][1])}
+    ret = w.expand(rets[0].value, stop=scalars)
+
+    def vec(e: ast.AST, depth: int = 4) -> List[Aff]:
+        """the vector an array-valued expression denotes, element by element"""
+        if isinstance(e, ast.Call) and src(e.func) in ('np.array', 'numpy.array',
+                                                       'np.asarray') and e.args and \
+                isinstance(e.args[0], (ast.List, ast.Tuple)):
+            return [aff_of(x, leaf) for x in e.args[0].elts]
+        if isinstance(e, ast.BinOp) and isinstance(e.op, (ast.Add, ast.Sub)):
+            sides = []
+            for x in (e.left, e.right):
+                try:
+                    sides.append(vec(x, depth))
+                except AnalysisError:
+                    sides.append([aff_of(x, leaf)])        # a scalar, broadcast
+            n_ = max(len(x) for x in sides)
+            if any(len(x) not in (1, n_) for x in sides):
+                raise AnalysisError(f'{f.name}: arrays of different lengths are added')
+            a_, b_ = (x * n_ if len(x) == 1 else x for x in sides)
+            return [x + y if isinstance(e.op, ast.Add) else x - y for x, y in zip(a_, b_)]
+        # the bounds of a space built here, or by another function of the package
+        if isinstance(e, ast.Attribute) and e.attr == 'upper_bound':
+            return vec(e.value, depth)
+        if isinstance(e, ast.Call) and src(e.func).split('.')[-1] in (
+                'make_categorical_space', 'make_discrete_space', 'make_continuous_space',
+                'Space') and e.args:
+            kw = {k.arg: k.value for k in e.keywords}
+            return vec(kw.get('upper_bound', e.args[-1]), depth)
+        if isinstance(e, ast.Call) and isinstance(e.func, ast.Name) and index is not None and \
+                depth > 0:
+            h = index.resolve_name(f.module, e.func.id)
+            if isinstance(h, Func) and h.cls is None and h is not f:
+                got, org = channels(h, index)
+                origins.update(org)
+                return got
+        raise AnalysisError(f'{f.name}: `{src(e)[:80]}` is not an array expression the channel '
+                            f'analysis reads')
     try:
-        return [aff_of(x, leaf) for x in arr.elts], origins
+        return vec(ret), origins
     except NonAffine as e:
         raise AnalysisError(f'{f.name}: non-affine channel {e}')
 
@@ -371,7 +401,65 @@ def _with_init_attrs(index: RepoIndex, c, m: Func) -> Optional[Func]:
     return Func(m.name, m.module, node, c)
 
 
-def _same_channels_as_sibling(index: RepoIndex, c, fn_pref: str) -> bool:
+def _without_precomputed(index: RepoIndex, c, call_text: Optional[str]) -> Optional[str]:
+    """`f(a, b, k=self.X)` read as `f(a, b)` when `k` is an optional parameter the pinned
+    tree did not have, `f` starts with `if k is None: k = E(params)`, and the value passed is
+    that very E on the call's own arguments -- through a (cached) property of the class whose
+    body is `v = E'; [v.setflags(..)]; return v`.  None when the call is not of that shape."""
+    from ..pinned_names import PARAMS
+    if not call_text:
+        return None
+    try:
+        call = ast.parse(call_text, mode='eval').body
+    except SyntaxError:
+        return None
+    if not (isinstance(call, ast.Call) and isinstance(call.func, ast.Name)):
+        return None
+    f = index.resolve_name(c.module, call.func.id)
+    if not isinstance(f, Func) or f.cls is not None:
+        return None
+    pinned = set(PARAMS.get(f'{f.module.relpath}:{f.short}', []))
+    extra = [k for k in call.keywords if k.arg is not None and k.arg not in pinned]
+    if not extra or len(extra) != len([k for k in call.keywords]):
+        return None
+    params = [a.arg for a in f.node.args.posonlyargs + f.node.args.args]
+    bound = dict(zip(params, call.args))
+    body = [s_ for s_ in f.node.body if not (isinstance(s_, ast.Expr)
+                                             and isinstance(s_.value, ast.Constant))]
+    import copy
+    from ..inline import _SubstNames
+    for k in extra:
+        dflt = f.param_defaults().get(k.arg)
+        if not (isinstance(dflt, ast.Constant) and dflt.value is None):
+            return None
+        init = [s_ for s_ in body if isinstance(s_, ast.If) and not s_.orelse
+                and src(s_.test) == f'{k.arg} is None' and len(s_.body) == 1
+                and isinstance(s_.body[0], ast.Assign) and len(s_.body[0].targets) == 1
+                and src(s_.body[0].targets[0]) == k.arg]
+        if len(init) != 1:
+            return None
+        want_v = src(_SubstNames(bound).visit(copy.deepcopy(init[0].body[0].value)))
+        v = k.value
+        if not (isinstance(v, ast.Attribute) and src(v.value) == 'self' and
+                v.attr in c.methods and c.methods[v.attr].node.decorator_list):
+            return None
+        pb = [s_ for s_ in c.methods[v.attr].node.body
+              if not (isinstance(s_, ast.Expr) and isinstance(s_.value, ast.Constant))]
+        pb = [s_ for s_ in pb if not (isinstance(s_, ast.Expr) and isinstance(s_.value, ast.Call)
+                                      and isinstance(s_.value.func, ast.Attribute)
+                                      and s_.value.func.attr == 'setflags')]
+        if not (len(pb) == 2 and isinstance(pb[0], ast.Assign) and len(pb[0].targets) == 1
+                and isinstance(pb[1], ast.Return) and
+                src(pb[1].value) == src(pb[0].targets[0])) and \
+                not (len(pb) == 1 and isinstance(pb[0], ast.Return)):
+            return None
+        got_v = src(pb[0].value)
+        if got_v != want_v:
+            return None
+    return src(ast.Call(call.func, call.args, []))
+
+
+def _same_channels_as_sibling(index: RepoIndex, c, fn_pref: str) -> Optional[bool]:
     """second reading of `<Cls>.convert`: with constructor constants expanded and new helpers
     read through, it computes the same three affine channels as the sibling conversion
     function, with maxima taken over the very sets the class's `space` takes them over"""
@@ -379,7 +467,7 @@ def _same_channels_as_sibling(index: RepoIndex, c, fn_pref: str) -> bool:
         cv = _with_init_attrs(index, c, c.methods['convert'])
         fc = index.func(REPR, f'{fn_pref}_grid_object_representation_convert')
         if cv is None:
-            return False
+            return None
         got, _ = channels(cv, index, cross=(fc.name,))
         ref, _ = channels(fc, index)
         # the set the class's `space` hands to the space function, as the constructor builds it
@@ -387,7 +475,7 @@ def _same_channels_as_sibling(index: RepoIndex, c, fn_pref: str) -> bool:
         pr = _with_init_attrs(index, c, Func('probe', c.module, probe, c))
         types_text = src(pr.node.body[0].value)
     except AnalysisError:
-        return False
+        return None         # unreadable: not a verdict
     from ..view import view
     node, vw, _ = view(index, cv, cross=(fc.name,))
     iters = {src(vw.expand(n.args[0].generators[0].iter)) for n in ast.walk(node)
@@ -431,9 +519,14 @@ def type_sets(index: RepoIndex, rep, rule: str) -> None:
             want = (f'{fn_pref}_grid_object_representation_convert(self._grid_object_types, '
                     f'self._grid_object_colors, {go})') if passes_sets else \
                 f'{fn_pref}_grid_object_representation_convert({go})'
-            okc = value_text(index, cv) == want
+            okc = value_text(index, cv) == want or \
+                _without_precomputed(index, c, value_text(index, cv)) == want
             if not okc and passes_sets:
                 okc = _same_channels_as_sibling(index, c, fn_pref)
+                if okc is None:
+                    raise AnalysisError(f'{c.name}.convert: `{(value_text(index, cv) or "")[:90]}` '
+                                        f'is neither the sibling conversion on the class\'s own '
+                                        f'sets nor readable as three affine channels')
             rep.check(okc,
                       rule, rel, f'{c.name}.convert', cv.node.lineno, src(b[-1]),
                       f'{c.name}.convert does not use the sibling conversion with the same sets',
